@@ -945,7 +945,7 @@ func (ssl *SSLAuthenticator) exchangeSciToken(ctx context.Context, negotiation *
 		}
 
 		// Verify the SciToken
-		claims, err := VerifySciToken(tokenStr)
+		claims, err := VerifySciTokenContext(ctx, tokenStr)
 		if err != nil {
 			slog.Error("❌ SSL: SciToken verification failed", "error", err, "destination", "cedar")
 
